@@ -11,6 +11,7 @@ import (
 	"time"
 
 	"google.golang.org/grpc/metadata"
+	"google.golang.org/grpc/peer"
 
 	"github.com/jhump/grpctunnel"
 	"github.com/jhump/grpctunnel/tunnelpb"
@@ -157,7 +158,7 @@ func famIdentity(w *World, c *Case, rng *rand.Rand) {
 				Client:  []Op{{K: "invoke", N: 10}},
 				Handler: []Op{{K: "ident", N: mut}, {K: "recv"}, {K: "ident", N: mut}, {K: "send", N: 5}, {K: "ret"}}}
 		} else {
-			s = &RPCSpec{ID: fmt.Sprintf("i%d", i), Method: "Bidi", ReqMD: reqMD, UseChanOpt: true,
+			s = &RPCSpec{ID: fmt.Sprintf("i%d", i), Method: "Bidi", ReqMD: reqMD, UseChanOpt: true, UsePeerOpt: true,
 				Client:  []Op{{K: "open"}, {K: "chanctx", N: mut}, {K: "send", N: 10}, {K: "recv"}, {K: "chanctx", N: mut}, {K: "close"}, {K: "recvall"}},
 				Handler: []Op{{K: "ident", N: mut}, {K: "recv"}, {K: "send", N: 5}, {K: "ident"}, {K: "recv"}, {K: "ret"}}}
 		}
@@ -282,7 +283,23 @@ func famIdentity(w *World, c *Case, rng *rand.Rand) {
 				if r.Extra["tunnel_md_ok"] != "true" || r.Extra["tunnel_md"] != wantTMD {
 					w.Violate("C17", "caller-tunnel-metadata-wrong", "rpc %s (tunnel %s, %s): TunnelMetadataFromOutgoingContext = %s, opened with %s", s.ID, ident, w.Cfg.Dir, r.Extra["tunnel_md"], wantTMD)
 				}
+			case r.Side == "client" && r.K == "opts" && r.Extra["peer_opt"] != "" && r.Extra["chan_opt"] == "":
+				fallthrough
 			case r.Side == "client" && ((r.K == "invoke" && r.Err == "") || (r.K == "opts" && r.Extra["chan_opt"] != "")):
+				// the grpc.Peer call option names the remote end of the tunnel that carried the RPC
+				if po := r.Extra["peer_opt"]; po != "" && ti.ch != nil {
+					want := "<none>"
+					if p, ok := peer.FromContext(ti.ch.Context()); ok && p.Addr != nil {
+						want = p.Addr.String()
+					}
+					w.Stat("identity_peer_option_reads", 1)
+					if po != want {
+						w.Violate("C17", "peer-option-wrong", "rpc %s answered by %s: the grpc.Peer call option reports %s, the carrying tunnel's peer is %s", s.ID, ident, po, want)
+					}
+				}
+				if r.Extra["chan_opt"] == "" && r.K == "opts" {
+					break
+				}
 				w.Stat("identity_caller_reads", 1)
 				if r.Extra["chan_opt"] != fmt.Sprintf("%p", ti.ch) {
 					w.Violate("C17", "with-tunnel-channel-wrong", "rpc %s answered by %s: WithTunnelChannel = %s, the carrying channel is %p", s.ID, ident, r.Extra["chan_opt"], ti.ch)
